@@ -1,12 +1,25 @@
 import NurbsVerif.Model.Knots2
 import NurbsVerif.Lemmas.Locality
 import NurbsVerif.Lemmas.Pieces
+import NurbsVerif.Lemmas.SplitSurfSep
+import NurbsVerif.Lemmas.SplitExamples
+import NurbsVerif.Lemmas.SplitSurfUVMain
 
 /-!
 # C07  Splitting and Bézier decomposition reproduce the original piecewise
 
 Model: `Geomdl.splitDir`, `decomposeDir` (insertion to multiplicity `p`, knot and net slices,
 normalisation of the pieces' knot vectors).
+
+End-to-end theorems (through `splitDir` / `decomposeDir` themselves, spans found by the library's
+search, closed right end included): `split_curve_pieces_coincide`, `split_curve_pieces_coincide_of_mult`,
+`decompose_curve_pieces`, `decompose_curve_count`, `split_surface_u_pieces_coincide`,
+`split_surface_v_pieces_coincide`, `decompose_surface_u_pieces`, `decompose_surface_v_pieces`,
+`decompose_surface_uv_pieces`.  `curveShape rat p U P` / `surfShape rat pu pv Uu Uv su sv P` are the
+`Shape` records the driver builds for a curve / surface.  Hypotheses: `ClampedWF` (sorted knots of the
+right number, `p ≥ 1`, `p+1` equal knots at both ends, non-empty last span, points of one dimension),
+inner knots repeated at most `p` times, and the tolerance of `find_multiplicity` separating the split
+parameter from every knot different from it.
 -/
 namespace C07
 open Geomdl Blossom
@@ -66,5 +79,334 @@ theorem basis_window_locality (U V : ℕ → K) (κ : ℕ) (u : K) (p : ℕ) (hp
 theorem basis_affine_invariance (U : ℕ → K) (κ : ℕ) (u a b : K) (ha : a ≠ 0) (p : ℕ) :
     basisFuns p (fun i => a * U i + b) κ (a * u + b) = basisFuns p U κ u :=
   basisFuns_affine U κ u a b ha p
+
+/-! ## End to end through `splitDir` / `decomposeDir` -/
+
+/-- **Splitting a curve, end to end.**  For a well-formed clamped curve of degree `p ≥ 1` whose inner
+    knots are repeated at most `p` times, an interior parameter `ub` (`U_p < ub < U_n`) and a tolerance
+    that separates `ub` from every knot different from it, `split_curve` (model `splitDir … 0`) is not
+    rejected and returns two curves `A`, `B` such that: both are again well-formed clamped curves
+    whose knot vectors start with `p+1` zeros and end with `p+1` ones; the sizes add up to
+    `|P| + r + 1` (`r = p - s` inserted copies); and for EVERY `t ∈ [0,1]` (both ends included), every
+    coordinate, `A(t) = C(U_p + t (ub - U_p))` and `B(t) = C(ub + t (U_n - ub))`, each side evaluated
+    with the span its own `find_span_linear` finds. -/
+theorem split_curve_pieces_coincide (rat : Bool) (p d : ℕ) (U : List K) (P : List (List K)) (ub tol : K)
+    (h : ClampedWF p d U P) (hlo : fnOf U p < ub) (hhi : ub < fnOf U P.length)
+    (htol : 0 ≤ tol) (hsep : ∀ x ∈ U, |ub - x| ≤ tol → x = ub)
+    (hmul : ∀ i, 1 ≤ i → i < P.length → fnOf U i < fnOf U (i + p)) :
+    ∃ UA PA UB PB,
+      splitDir (curveShape rat p U P) 0 ub tol = some (curveShape rat p UA PA, curveShape rat p UB PB) ∧
+      ClampedWF p d UA PA ∧ ClampedWF p d UB PB ∧
+      (∀ i, i ≤ p → fnOf UA i = 0) ∧ (∀ i, PA.length ≤ i → fnOf UA i = 1) ∧
+      (∀ i, i ≤ p → fnOf UB i = 0) ∧ (∀ i, PB.length ≤ i → fnOf UB i = 1) ∧
+      PA.length + PB.length = P.length + (p - findMultiplicity ub U tol) + 1 ∧
+      (∀ t, 0 ≤ t → t ≤ 1 → ∀ j, (curvePoint p (fnOf UA) PA t).getD j 0
+          = (curvePoint p (fnOf U) P (fnOf U p + t * (ub - fnOf U p))).getD j 0) ∧
+      (∀ t, 0 ≤ t → t ≤ 1 → ∀ j, (curvePoint p (fnOf UB) PB t).getD j 0
+          = (curvePoint p (fnOf U) P (ub + t * (fnOf U P.length - ub))).getD j 0) :=
+  split_curve_sep rat p d U P ub tol h hlo hhi htol hsep hmul
+
+/-- The same with the hypotheses on `find_multiplicity` stated directly (`MultExact`: the reported
+    number `s` is at most `p`, the `s` knots ending at the span of `ub` equal `ub`, the one before is
+    smaller) instead of being derived from the tolerance separation. -/
+theorem split_curve_pieces_coincide_of_mult (rat : Bool) (p d : ℕ) (U : List K) (P : List (List K)) (ub tol : K)
+    (h : ClampedWF p d U P) (hlo : fnOf U p < ub) (hhi : ub < fnOf U P.length)
+    (hmx : MultExact p (fnOf U) (findSpanLinear p (fnOf U) P.length ub) (findMultiplicity ub U tol) ub) :
+    ∃ UA PA UB PB,
+      splitDir (curveShape rat p U P) 0 ub tol = some (curveShape rat p UA PA, curveShape rat p UB PB) ∧
+      ClampedWF p d UA PA ∧ ClampedWF p d UB PB ∧
+      (∀ i, i ≤ p → fnOf UA i = 0) ∧ (∀ i, PA.length ≤ i → fnOf UA i = 1) ∧
+      (∀ i, i ≤ p → fnOf UB i = 0) ∧ (∀ i, PB.length ≤ i → fnOf UB i = 1) ∧
+      PA.length + PB.length = P.length + (p - findMultiplicity ub U tol) + 1 ∧
+      (∀ t, 0 ≤ t → t ≤ 1 → ∀ j, (curvePoint p (fnOf UA) PA t).getD j 0
+          = (curvePoint p (fnOf U) P (fnOf U p + t * (ub - fnOf U p))).getD j 0) ∧
+      (∀ t, 0 ≤ t → t ≤ 1 → ∀ j, (curvePoint p (fnOf UB) PB t).getD j 0
+          = (curvePoint p (fnOf U) P (ub + t * (fnOf U P.length - ub))).getD j 0) :=
+  split_curve_main rat p d U P ub tol h hlo hhi hmx
+
+/-- `find_multiplicity` is exact (in the sense the theorems need) whenever its tolerance separates the
+    parameter from every knot different from it and no inner knot is repeated more than `p` times. -/
+theorem find_multiplicity_exact (p d : ℕ) (U : List K) (P : List (List K)) (ub tol : K)
+    (hwf : CurveWF p d U P) (hp : 1 ≤ p) (hlo : fnOf U p < ub) (hhi : ub < fnOf U P.length)
+    (htol : 0 ≤ tol) (hsep : ∀ x ∈ U, |ub - x| ≤ tol → x = ub)
+    (hmul : ∀ i, 1 ≤ i → i < P.length → fnOf U i < fnOf U (i + p)) :
+    MultExact p (fnOf U) (findSpanLinear p (fnOf U) P.length ub) (findMultiplicity ub U tol) ub :=
+  multExact_of_sep p d U P ub tol hwf hp hlo hhi htol hsep hmul
+
+/-- **Bézier decomposition of a curve, end to end.**  For an admissible curve (`DecompWF`: well formed
+    and clamped, inner knots repeated at most `p` times, domain not longer than 1, any two knots equal
+    or further than `tol` apart) and enough fuel, `decompose_curve` (model `decomposeDir 0`) returns
+    EXACTLY ONE piece per non-empty knot interval of the domain (`spanStarts` lists their start
+    indices, `breaks` the distinct knot values), IN ORDER; every piece is a clamped segment with `p+1`
+    control points that coincides with the original on its interval `[breaks i, breaks (i+1)]` under
+    the affine map of its own domain (`BezPiece`), for every parameter, both ends included, every
+    coordinate; and whenever at least one split happened (or the input was normalised) every piece
+    has the knot vector `0^{p+1} 1^{p+1}`. -/
+theorem decompose_curve_pieces (rat : Bool) (p d : ℕ) (tol : K) (fuel : ℕ) (U : List K) (P : List (List K))
+    (h : DecompWF p d U P tol) (hfuel : (spanStarts p (fnOf U) P.length).length ≤ fuel + 1) :
+    ∃ pieces : List (List K × List (List K)),
+      decomposeDir 0 tol fuel (curveShape rat p U P) = pieces.map (fun q => curveShape rat p q.1 q.2) ∧
+      pieces.length = (spanStarts p (fnOf U) P.length).length ∧
+      ((p + 1 < P.length ∨ (fnOf U p = 0 ∧ fnOf U P.length = 1)) → ∀ q ∈ pieces, q.1 = bezKv p) ∧
+      ∀ i, i < pieces.length →
+        BezPiece p d (curveFn p U P) ((breaks p (fnOf U) P.length).getD i 0)
+          ((breaks p (fnOf U) P.length).getD (i + 1) 0) (pieces.getD i ([], [])) :=
+  decompose_curve_all rat p d tol fuel U P h hfuel
+
+/-- **Number of pieces** = number of non-empty knot intervals of the domain (= number of distinct
+    interior knots + 1); the length of the knot vector (what the driver passes) is always enough fuel. -/
+theorem decompose_curve_count (rat : Bool) (p d : ℕ) (tol : K) (fuel : ℕ) (U : List K) (P : List (List K))
+    (h : DecompWF p d U P tol) (hfuel : U.length ≤ fuel) :
+    (decomposeDir 0 tol fuel (curveShape rat p U P)).length = (spanStarts p (fnOf U) P.length).length := by
+  have hl := h.cl.wf.len
+  have := spanStarts_length_le p (fnOf U) P.length
+  obtain ⟨pieces, h1, h2, _, _⟩ := decompose_curve_all rat p d tol fuel U P h (by omega)
+  rw [h1, List.length_map, h2]
+
+/-- one decomposition step keeps the curve admissible: the remainder after cutting off the first
+    Bézier segment satisfies `DecompWF` again (this is what makes the hypotheses of
+    `decompose_curve_pieces` conditions on the INPUT only) -/
+theorem decompose_remainder_admissible (p d : ℕ) (U : List K) (P : List (List K)) (tol : K)
+    (h : DecompWF p d U P tol) (hn : p + 1 < P.length) :
+    DecompWF p d
+      (knotNormalize (rightKv p (splitRefined p U P (fnOf U (p + 1)) tol).1 (fnOf U (p + 1))
+        (findSpanLinear p (fnOf U) P.length (fnOf U (p + 1)) + (p - findMultiplicity (fnOf U (p + 1)) U tol))))
+      ((splitRefined p U P (fnOf U (p + 1)) tol).2.drop
+        (findSpanLinear p (fnOf U) P.length (fnOf U (p + 1)) + (p - findMultiplicity (fnOf U (p + 1)) U tol) - p))
+      tol :=
+  remainder_wf p d U P tol h hn
+
+/-- **Splitting a surface in u, end to end** (model `splitDir … 0` = `split_surface_u`).  The u knot
+    vector is clamped (`ClampedKv`), inner u knots repeated at most `pu` times, `ub` interior and
+    separated by `tol`; the v knot vector only needs to be sorted with a non-degenerate range.  The
+    split is not rejected; both pieces have clamped u knot vectors `0^{pu+1} … 1^{pu+1}`, nets of the
+    right size, u sizes adding up to `su + r + 1`; and for every `t ∈ [0,1]`, every `v` of the domain:
+    `A(t, v') = S(U_p + t (ub - U_p), v)`, `B(t, v') = S(ub + t (U_n - ub), v)`, where `v'` is `v` under the
+    normalisation of the v knot vector that the pieces' constructor performs (the identity when the
+    input's v knot vector is normalised). -/
+theorem split_surface_u_pieces_coincide (rat : Bool) (pu pv d : ℕ) (Uu Uv : List K) (su sv : ℕ)
+    (P : List (List K)) (ub tol : K)
+    (hP : NetOk d P) (hlenP : P.length = su * sv)
+    (hVm : Monotone (fnOf Uv)) (hVne : Uv ≠ []) (hVr : Uv.headD 0 < Uv.getLastD 0) (hsv : pv + 1 ≤ sv)
+    (hU : ClampedKv pu su Uu) (hlo : fnOf Uu pu < ub) (hhi : ub < fnOf Uu su)
+    (htol : 0 ≤ tol) (hsep : ∀ x ∈ Uu, |ub - x| ≤ tol → x = ub)
+    (hmul : ∀ i, 1 ≤ i → i < su → fnOf Uu i < fnOf Uu (i + pu)) :
+    ∃ UA nA PA UB nB PB,
+      splitDir (surfShape rat pu pv Uu Uv su sv P) 0 ub tol
+        = some (surfShape rat pu pv UA (knotNormalize Uv) nA sv PA, surfShape rat pu pv UB (knotNormalize Uv) nB sv PB) ∧
+      ClampedKv pu nA UA ∧ ClampedKv pu nB UB ∧
+      (∀ i, i ≤ pu → fnOf UA i = 0) ∧ (∀ i, nA ≤ i → fnOf UA i = 1) ∧
+      (∀ i, i ≤ pu → fnOf UB i = 0) ∧ (∀ i, nB ≤ i → fnOf UB i = 1) ∧
+      PA.length = nA * sv ∧ PB.length = nB * sv ∧ NetOk d PA ∧ NetOk d PB ∧
+      nA + nB = su + (pu - findMultiplicity ub Uu tol) + 1 ∧
+      (∀ v, fnOf Uv pv ≤ v → ∀ t, 0 ≤ t → t ≤ 1 → ∀ j,
+        (surfacePoint pu pv (fnOf UA) (fnOf (knotNormalize Uv)) nA sv PA t
+            ((v - Uv.headD 0) / (Uv.getLastD 0 - Uv.headD 0))).getD j 0
+          = (surfacePoint pu pv (fnOf Uu) (fnOf Uv) su sv P (fnOf Uu pu + t * (ub - fnOf Uu pu)) v).getD j 0) ∧
+      (∀ v, fnOf Uv pv ≤ v → ∀ t, 0 ≤ t → t ≤ 1 → ∀ j,
+        (surfacePoint pu pv (fnOf UB) (fnOf (knotNormalize Uv)) nB sv PB t
+            ((v - Uv.headD 0) / (Uv.getLastD 0 - Uv.headD 0))).getD j 0
+          = (surfacePoint pu pv (fnOf Uu) (fnOf Uv) su sv P (ub + t * (fnOf Uu su - ub)) v).getD j 0) :=
+  split_surface_u_main rat pu pv d Uu Uv su sv P ub tol hP hlenP hVm hVne hVr hsv hU hlo hhi
+    (multExact_of_sep_kv pu su Uu ub tol hU hlo hhi htol hsep hmul)
+
+/-- **Splitting a surface in v, end to end** (model `splitDir … 1` = `split_surface_v`): the mirror
+    image of `split_surface_u_pieces_coincide` (rows instead of columns). -/
+theorem split_surface_v_pieces_coincide (rat : Bool) (pu pv d : ℕ) (Uu Uv : List K) (su sv : ℕ)
+    (P : List (List K)) (vb tol : K)
+    (hP : NetOk d P) (hlenP : P.length = su * sv)
+    (hUm : Monotone (fnOf Uu)) (hUne : Uu ≠ []) (hUr : Uu.headD 0 < Uu.getLastD 0) (hsu : pu + 1 ≤ su)
+    (hV : ClampedKv pv sv Uv) (hlo : fnOf Uv pv < vb) (hhi : vb < fnOf Uv sv)
+    (htol : 0 ≤ tol) (hsep : ∀ x ∈ Uv, |vb - x| ≤ tol → x = vb)
+    (hmul : ∀ i, 1 ≤ i → i < sv → fnOf Uv i < fnOf Uv (i + pv)) :
+    ∃ UA nA PA UB nB PB,
+      splitDir (surfShape rat pu pv Uu Uv su sv P) 1 vb tol
+        = some (surfShape rat pu pv (knotNormalize Uu) UA su nA PA, surfShape rat pu pv (knotNormalize Uu) UB su nB PB) ∧
+      ClampedKv pv nA UA ∧ ClampedKv pv nB UB ∧
+      (∀ i, i ≤ pv → fnOf UA i = 0) ∧ (∀ i, nA ≤ i → fnOf UA i = 1) ∧
+      (∀ i, i ≤ pv → fnOf UB i = 0) ∧ (∀ i, nB ≤ i → fnOf UB i = 1) ∧
+      PA.length = su * nA ∧ PB.length = su * nB ∧ NetOk d PA ∧ NetOk d PB ∧
+      nA + nB = sv + (pv - findMultiplicity vb Uv tol) + 1 ∧
+      (∀ u, fnOf Uu pu ≤ u → ∀ t, 0 ≤ t → t ≤ 1 → ∀ j,
+        (surfacePoint pu pv (fnOf (knotNormalize Uu)) (fnOf UA) su nA PA
+            ((u - Uu.headD 0) / (Uu.getLastD 0 - Uu.headD 0)) t).getD j 0
+          = (surfacePoint pu pv (fnOf Uu) (fnOf Uv) su sv P u (fnOf Uv pv + t * (vb - fnOf Uv pv))).getD j 0) ∧
+      (∀ u, fnOf Uu pu ≤ u → ∀ t, 0 ≤ t → t ≤ 1 → ∀ j,
+        (surfacePoint pu pv (fnOf (knotNormalize Uu)) (fnOf UB) su nB PB
+            ((u - Uu.headD 0) / (Uu.getLastD 0 - Uu.headD 0)) t).getD j 0
+          = (surfacePoint pu pv (fnOf Uu) (fnOf Uv) su sv P u (vb + t * (fnOf Uv sv - vb))).getD j 0) :=
+  split_surface_v_main rat pu pv d Uu Uv su sv P vb tol hP hlenP hUm hUne hUr hsu hV hlo hhi
+    (multExact_of_sep_kv pv sv Uv vb tol hV hlo hhi htol hsep hmul)
+
+/-- **Bézier decomposition of a surface in u, end to end** (model `decomposeDir 0` on a surface =
+    `decompose_surface(…, decompose_dir='u')`).  Hypotheses: net of the right size and dimension; the u
+    data admissible (`DecompWF` of column 0: clamped, inner knots repeated at most `pu` times, domain
+    not longer than 1, knots separated by `tol`); the v knot vector sorted and NORMALISED
+    (`knotNormalize Uv = Uv`, the library's default, so that the pieces keep it).  Conclusion: exactly
+    one strip per non-empty u interval, in order; strip `i` has `pu+1` control points in u, a clamped u
+    knot vector (`0^{pu+1} 1^{pu+1}` whenever a split happened or the input was normalised), the same v
+    data, and coincides with the original on `[breaks i, breaks (i+1)] × (v domain)` under the affine
+    map of its own u domain and the identity in v; every parameter, both ends, every coordinate. -/
+theorem decompose_surface_u_pieces (rat : Bool) (pu pv d : ℕ) (tol : K) (fuel : ℕ) (Uu Uv : List K) (su sv : ℕ)
+    (P : List (List K)) (hP : NetOk d P) (hlenP : P.length = su * sv)
+    (hVm : Monotone (fnOf Uv)) (hsv : pv + 1 ≤ sv) (hVn : knotNormalize Uv = Uv)
+    (h0 : DecompWF pu d Uu (colOf su sv P 0) tol)
+    (hfuel : (spanStarts pu (fnOf Uu) su).length ≤ fuel + 1) :
+    ∃ pieces : List (List K × ℕ × List (List K)),
+      decomposeDir 0 tol fuel (surfShape rat pu pv Uu Uv su sv P)
+        = pieces.map (fun q => surfShape rat pu pv q.1 Uv q.2.1 sv q.2.2) ∧
+      pieces.length = (spanStarts pu (fnOf Uu) su).length ∧
+      ((pu + 1 < su ∨ (fnOf Uu pu = 0 ∧ fnOf Uu su = 1)) → ∀ q ∈ pieces, q.1 = bezKv pu) ∧
+      ∀ i, i < pieces.length →
+        (pieces.getD i ([], 0, [])).2.1 = pu + 1 ∧
+        ClampedKv pu (pu + 1) (pieces.getD i ([], 0, [])).1 ∧
+        (pieces.getD i ([], 0, [])).2.2.length = (pu + 1) * sv ∧ NetOk d (pieces.getD i ([], 0, [])).2.2 ∧
+        ∀ v, fnOf Uv pv ≤ v → ∀ t, 0 ≤ t → t ≤ 1 → ∀ j,
+          (surfacePoint pu pv (fnOf (pieces.getD i ([], 0, [])).1) (fnOf Uv) (pu + 1) sv
+              (pieces.getD i ([], 0, [])).2.2
+              (fnOf (pieces.getD i ([], 0, [])).1 pu
+                + t * (fnOf (pieces.getD i ([], 0, [])).1 (pu + 1) - fnOf (pieces.getD i ([], 0, [])).1 pu)) v).getD j 0
+            = (surfacePoint pu pv (fnOf Uu) (fnOf Uv) su sv P
+                ((breaks pu (fnOf Uu) su).getD i 0
+                  + t * ((breaks pu (fnOf Uu) su).getD (i + 1) 0 - (breaks pu (fnOf Uu) su).getD i 0)) v).getD j 0 :=
+  decompose_surface_u_all rat pu pv d tol fuel Uu Uv su sv P hP hlenP hVm hsv hVn h0 hfuel
+
+/-- **Bézier decomposition of a surface in v, end to end** (model `decomposeDir 1`): the mirror image
+    of `decompose_surface_u_pieces`. -/
+theorem decompose_surface_v_pieces (rat : Bool) (pu pv d : ℕ) (tol : K) (fuel : ℕ) (Uu Uv : List K) (su sv : ℕ)
+    (P : List (List K)) (hP : NetOk d P) (hlenP : P.length = su * sv)
+    (hUm : Monotone (fnOf Uu)) (hsu : pu + 1 ≤ su) (hUn : knotNormalize Uu = Uu)
+    (h0 : DecompWF pv d Uv (rowOf sv P 0) tol)
+    (hfuel : (spanStarts pv (fnOf Uv) sv).length ≤ fuel + 1) :
+    ∃ pieces : List (List K × ℕ × List (List K)),
+      decomposeDir 1 tol fuel (surfShape rat pu pv Uu Uv su sv P)
+        = pieces.map (fun q => surfShape rat pu pv Uu q.1 su q.2.1 q.2.2) ∧
+      pieces.length = (spanStarts pv (fnOf Uv) sv).length ∧
+      ((pv + 1 < sv ∨ (fnOf Uv pv = 0 ∧ fnOf Uv sv = 1)) → ∀ q ∈ pieces, q.1 = bezKv pv) ∧
+      ∀ i, i < pieces.length →
+        (pieces.getD i ([], 0, [])).2.1 = pv + 1 ∧
+        ClampedKv pv (pv + 1) (pieces.getD i ([], 0, [])).1 ∧
+        (pieces.getD i ([], 0, [])).2.2.length = su * (pv + 1) ∧ NetOk d (pieces.getD i ([], 0, [])).2.2 ∧
+        ∀ u, fnOf Uu pu ≤ u → ∀ t, 0 ≤ t → t ≤ 1 → ∀ j,
+          (surfacePoint pu pv (fnOf Uu) (fnOf (pieces.getD i ([], 0, [])).1) su (pv + 1)
+              (pieces.getD i ([], 0, [])).2.2 u
+              (fnOf (pieces.getD i ([], 0, [])).1 pv
+                + t * (fnOf (pieces.getD i ([], 0, [])).1 (pv + 1) - fnOf (pieces.getD i ([], 0, [])).1 pv))).getD j 0
+            = (surfacePoint pu pv (fnOf Uu) (fnOf Uv) su sv P u
+                ((breaks pv (fnOf Uv) sv).getD i 0
+                  + t * ((breaks pv (fnOf Uv) sv).getD (i + 1) 0 - (breaks pv (fnOf Uv) sv).getD i 0))).getD j 0 :=
+  decompose_surface_v_all rat pu pv d tol fuel Uu Uv su sv P hP hlenP hUm hsu hUn h0 hfuel
+
+/-- **Bézier decomposition of a surface in both directions, end to end** (model `decomposeUV` =
+    `decompose_surface(…, decompose_dir='uv')`: u first, then every strip in v).  Both knot vectors
+    normalised and admissible.  The result has exactly one Bézier patch per PAIR of non-empty knot
+    intervals, in u-major order (patch `(i, l)` at position `l + cV * i`); every patch has the knot
+    vectors `0^{p+1} 1^{p+1}` in both directions, `(pu+1)(pv+1)` control points, and for all
+    `s, t ∈ [0,1]` its point at `(s, t)` is the original surface's point at
+    `(breaksU i + s (breaksU (i+1) - breaksU i), breaksV l + t (breaksV (l+1) - breaksV l))`. -/
+theorem decompose_surface_uv_pieces (rat : Bool) (pu pv d : ℕ) (tol : K) (Uu Uv : List K) (su sv : ℕ)
+    (P : List (List K)) (hP : NetOk d P) (hlenP : P.length = su * sv)
+    (hUn : knotNormalize Uu = Uu) (hVn : knotNormalize Uv = Uv)
+    (hU0 : DecompWF pu d Uu (colOf su sv P 0) tol) (hV0 : DecompWF pv d Uv (rowOf sv P 0) tol) :
+    (decomposeUV tol (surfShape rat pu pv Uu Uv su sv P)).length
+      = (spanStarts pu (fnOf Uu) su).length * (spanStarts pv (fnOf Uv) sv).length ∧
+    ∀ i, i < (spanStarts pu (fnOf Uu) su).length → ∀ l, l < (spanStarts pv (fnOf Uv) sv).length →
+      ∃ Pil : List (List K),
+        (decomposeUV tol (surfShape rat pu pv Uu Uv su sv P)).getD
+            (l + (spanStarts pv (fnOf Uv) sv).length * i) (surfShape rat pu pv [] [] 0 0 [])
+          = surfShape rat pu pv (bezKv pu) (bezKv pv) (pu + 1) (pv + 1) Pil ∧
+        Pil.length = (pu + 1) * (pv + 1) ∧ NetOk d Pil ∧
+        ∀ s, 0 ≤ s → s ≤ 1 → ∀ t, 0 ≤ t → t ≤ 1 → ∀ j,
+          (surfacePoint pu pv (fnOf (bezKv pu)) (fnOf (bezKv pv)) (pu + 1) (pv + 1) Pil s t).getD j 0
+            = (surfacePoint pu pv (fnOf Uu) (fnOf Uv) su sv P
+                ((breaks pu (fnOf Uu) su).getD i 0
+                  + s * ((breaks pu (fnOf Uu) su).getD (i + 1) 0 - (breaks pu (fnOf Uu) su).getD i 0))
+                ((breaks pv (fnOf Uv) sv).getD l 0
+                  + t * ((breaks pv (fnOf Uv) sv).getD (l + 1) 0 - (breaks pv (fnOf Uv) sv).getD l 0))).getD j 0 :=
+  decompose_surface_uv_all rat pu pv d tol Uu Uv su sv P hP hlenP hUn hVn hU0 hV0
+
+/-! ## Non-vacuity: the hypotheses hold on concrete inputs
+
+`SplitEx.U = [0,0,0,1/2,1,1,1]`, `SplitEx.P` four points in the plane (a quadratic with one interior
+knot), `SplitEx.tol = 1e-7`; `SplitEx.V = [0,0,1,1]`, `SplitEx.PS` a 4 × 2 net in space. -/
+
+/-- splitting the quadratic at 1/4 (not a knot, two copies inserted): every hypothesis of
+    `split_curve_pieces_coincide` holds, so its conclusion holds for this input -/
+example : ∃ UA PA UB PB,
+    splitDir (curveShape false 2 SplitEx.U SplitEx.P) 0 (1/4) SplitEx.tol
+      = some (curveShape false 2 UA PA, curveShape false 2 UB PB) ∧
+    PA.length + PB.length = 4 + (2 - findMultiplicity (1/4) SplitEx.U SplitEx.tol) + 1 ∧
+    (∀ t, 0 ≤ t → t ≤ 1 → ∀ j, (curvePoint 2 (fnOf UA) PA t).getD j 0
+        = (curvePoint 2 (fnOf SplitEx.U) SplitEx.P (fnOf SplitEx.U 2 + t * (1/4 - fnOf SplitEx.U 2))).getD j 0) := by
+  obtain ⟨UA, PA, UB, PB, h1, _, _, _, _, _, _, h8, h9, _⟩ :=
+    split_curve_pieces_coincide false 2 2 SplitEx.U SplitEx.P (1/4) SplitEx.tol SplitEx.clamped
+      (by simp [SplitEx.U, fnOf, List.getD]) (by simp [SplitEx.U, SplitEx.P, fnOf, List.getD]; norm_num)
+      (by norm_num [SplitEx.tol]) SplitEx.sep_quarter
+      (fun i h1 h2 => SplitEx.mul_U i h1 (by simpa [SplitEx.P] using h2))
+  exact ⟨UA, PA, UB, PB, h1, h8, h9⟩
+
+/-- splitting at the existing knot 1/2 (multiplicity 1, one copy inserted) is covered as well -/
+example : MultExact 2 (fnOf SplitEx.U) (findSpanLinear 2 (fnOf SplitEx.U) SplitEx.P.length (1/2))
+    (findMultiplicity (1/2) SplitEx.U SplitEx.tol) (1/2) :=
+  find_multiplicity_exact 2 2 SplitEx.U SplitEx.P (1/2) SplitEx.tol SplitEx.clamped.wf (by omega)
+    (by simp [SplitEx.U, fnOf, List.getD]) (by simp [SplitEx.U, SplitEx.P, fnOf, List.getD]; norm_num)
+    (by norm_num [SplitEx.tol]) SplitEx.sep_half
+    (fun i h1 h2 => SplitEx.mul_U i h1 (by simpa [SplitEx.P] using h2))
+
+/-- the quadratic is admissible for the decomposition theorems; it has two non-empty intervals, so
+    `decompose_curve` returns two pieces -/
+example : DecompWF 2 2 SplitEx.U SplitEx.P SplitEx.tol := SplitEx.decompWF
+
+example : (decomposeDir 0 SplitEx.tol 7 (curveShape false 2 SplitEx.U SplitEx.P)).length
+    = (spanStarts 2 (fnOf SplitEx.U) SplitEx.P.length).length :=
+  decompose_curve_count false 2 2 SplitEx.tol 7 SplitEx.U SplitEx.P SplitEx.decompWF (by simp [SplitEx.U])
+
+/-- a 4 × 2 surface of degrees (2, 1): splitting in u at 1/4 and in v at 1/3 satisfies the hypotheses -/
+example : ∃ UA nA PA UB nB PB,
+    splitDir (surfShape false 2 1 SplitEx.U SplitEx.V 4 2 SplitEx.PS) 0 (1/4) SplitEx.tol
+      = some (surfShape false 2 1 UA (knotNormalize SplitEx.V) nA 2 PA,
+              surfShape false 2 1 UB (knotNormalize SplitEx.V) nB 2 PB) := by
+  obtain ⟨UA, nA, PA, UB, nB, PB, h1, _⟩ :=
+    split_surface_u_pieces_coincide false 2 1 3 SplitEx.U SplitEx.V 4 2 SplitEx.PS (1/4) SplitEx.tol
+      SplitEx.netS (by simp [SplitEx.PS]) SplitEx.mono_V (by simp [SplitEx.V]) (by simp [SplitEx.V]) (by omega)
+      SplitEx.clampedKv (by simp [SplitEx.U, fnOf, List.getD]) (by simp [SplitEx.U, fnOf, List.getD]; norm_num)
+      (by norm_num [SplitEx.tol]) SplitEx.sep_quarter SplitEx.mul_U
+  exact ⟨UA, nA, PA, UB, nB, PB, h1⟩
+
+example : ∃ UA nA PA UB nB PB,
+    splitDir (surfShape false 2 1 SplitEx.U SplitEx.V 4 2 SplitEx.PS) 1 (1/3) SplitEx.tol
+      = some (surfShape false 2 1 (knotNormalize SplitEx.U) UA 4 nA PA,
+              surfShape false 2 1 (knotNormalize SplitEx.U) UB 4 nB PB) := by
+  obtain ⟨UA, nA, PA, UB, nB, PB, h1, _⟩ :=
+    split_surface_v_pieces_coincide false 2 1 3 SplitEx.U SplitEx.V 4 2 SplitEx.PS (1/3) SplitEx.tol
+      SplitEx.netS (by simp [SplitEx.PS]) SplitEx.mono_U (by simp [SplitEx.U]) (by simp [SplitEx.U]) (by omega)
+      SplitEx.clampedKvV (by simp [SplitEx.V, fnOf, List.getD]) (by simp [SplitEx.V, fnOf, List.getD]; norm_num)
+      (by norm_num [SplitEx.tol]) SplitEx.sep_V SplitEx.mul_V
+  exact ⟨UA, nA, PA, UB, nB, PB, h1⟩
+
+/-- the 4 × 2 surface satisfies the hypotheses of the three surface-decomposition theorems; `uv` gives
+    (number of u intervals) × (number of v intervals) patches -/
+example : (decomposeUV SplitEx.tol (surfShape false 2 1 SplitEx.U SplitEx.V 4 2 SplitEx.PS)).length
+    = (spanStarts 2 (fnOf SplitEx.U) 4).length * (spanStarts 1 (fnOf SplitEx.V) 2).length :=
+  (decompose_surface_uv_pieces false 2 1 3 SplitEx.tol SplitEx.U SplitEx.V 4 2 SplitEx.PS SplitEx.netS
+    (by simp [SplitEx.PS]) SplitEx.norm_U SplitEx.norm_V SplitEx.decompWF_col SplitEx.decompWF_row).1
+
+example : ∃ pieces : List (List ℚ × ℕ × List (List ℚ)),
+    decomposeDir 0 SplitEx.tol 7 (surfShape false 2 1 SplitEx.U SplitEx.V 4 2 SplitEx.PS)
+      = pieces.map (fun q => surfShape false 2 1 q.1 SplitEx.V q.2.1 2 q.2.2) ∧
+    pieces.length = (spanStarts 2 (fnOf SplitEx.U) 4).length := by
+  obtain ⟨pieces, h1, h2, _⟩ := decompose_surface_u_pieces false 2 1 3 SplitEx.tol 7 SplitEx.U SplitEx.V 4 2
+    SplitEx.PS SplitEx.netS (by simp [SplitEx.PS]) SplitEx.mono_V (by omega) SplitEx.norm_V SplitEx.decompWF_col
+    (by have := spanStarts_length_le 2 (fnOf SplitEx.U) 4; omega)
+  exact ⟨pieces, h1, h2⟩
+
+example : ∃ pieces : List (List ℚ × ℕ × List (List ℚ)),
+    decomposeDir 1 SplitEx.tol 4 (surfShape false 2 1 SplitEx.U SplitEx.V 4 2 SplitEx.PS)
+      = pieces.map (fun q => surfShape false 2 1 SplitEx.U q.1 4 q.2.1 q.2.2) ∧
+    pieces.length = (spanStarts 1 (fnOf SplitEx.V) 2).length := by
+  obtain ⟨pieces, h1, h2, _⟩ := decompose_surface_v_pieces false 2 1 3 SplitEx.tol 4 SplitEx.U SplitEx.V 4 2
+    SplitEx.PS SplitEx.netS (by simp [SplitEx.PS]) SplitEx.mono_U (by omega) SplitEx.norm_U SplitEx.decompWF_row
+    (by have := spanStarts_length_le 1 (fnOf SplitEx.V) 2; omega)
+  exact ⟨pieces, h1, h2⟩
 
 end C07
